@@ -30,6 +30,26 @@ CLAIMED = {
             "2-4 simulated caller threads run seeded scripts of mutations, queries, iteration and traversals on shared sync nodes; the scheduler decides who runs at every lock acquisition (uniform / PCT / sticky / serial policies, writer preference on or off). Verdicts: deadlock (no task runnable), step-budget overrun, panic or poisoned lock, quiescent mirror/symmetry invariant, and existence of a sequential order of the mutating calls that explains every return value and the final graph. Seeded schedule search, not exhaustive.",
             "Trusted: scheduler and lock model (cross-checked against the real lock at every grant), reference model. Context switches only at lock acquisitions (all shared mutable state of the sync flavours is under those locks). Nodes kept alive by the harness.",
             "DESIGN.md §4 C17"),
+    "C20": ("inject", "exploration",
+            "deterministic simulation: re-entrant interleaving of a loop/traversal with a script of operations, the simulator deciding at every step which operations fire; lock seam reports a guard kept across a step as self-deadlock; per-step oracle against the reference model",
+            "Hosts: every edge iterator and every traversal kind/mode with for_each or filter, all four flavours. A seeded script of edge operations (on the cursor's endpoints and on other nodes, through every handle provenance), queries, nested iteration/searches and container calls fires at simulator-chosen steps. Verdicts: panic, self-deadlock, yielded edge not alive at that moment, injected call disagreeing with the reference model, no termination within a bound after the last injection, graph != model after the loop. A host that fails on a frozen graph (no injection) is not a C20 verdict.",
+            "Trusted: reference model, single-task lock observer. One task: the interleaving under test is re-entrancy, not threads.",
+            "DESIGN.md §4 C20"),
+    "C11": ("scc", "exploration",
+            "deterministic simulation of the container's iteration order: hash seam (ahash key source owned by the simulator) x seeded insertion orders, several container instances per graph, reference SCC partition",
+            "scc() of digraph and sync_digraph containers is compared, as a set of sets, with the mutual-reachability classes computed by a reachability closure, for several container instances per seeded graph, each with its own simulated hash seed and insertion order (the configuration the property quantifies over).",
+            "Trusted: the reachability-closure reference; the hash seam really determines iteration order (checked by the determinism self-test and the order-differs probe).",
+            "DESIGN.md §4 C11"),
+    "C12": ("roundtrip", "exploration",
+            "deterministic simulation: hash seam on both the serialising and the deserialising side, simulated Read/Write streams with benign (short transfers, EINTR) and hard (I/O error, write-zero, EOF at byte k) faults in separate configurations",
+            "Seeded graphs in all four containers, JSON and CBOR, are serialised and deserialised under simulator-chosen container orders and stream behaviour; the copy must have the same keys, node values and per-node ordered out-lists (directed) or incident multisets (undirected) and satisfy the mirror/symmetry invariant; under a hard stream fault the call returns Err or an equal graph and never panics.",
+            "Trusted: canonicalisation of a container through the public iterators. Containers are closed under neighbours (precondition).",
+            "DESIGN.md §4 C12"),
+    "C13": ("untrusted", "fault_enumeration",
+            "fault injection on stored documents: every truncation offset and every structural mutation of each seeded base document enumerated, seeded byte damage, delivery through a faulty simulated reader; oracle is the property's disjunction",
+            "For every seeded base document (four container types, JSON and CBOR) all truncation offsets and all structural mutations of the document tree are enumerated, plus seeded byte damage; each mutated document is deserialised (a third through a faulty reader). Verdicts: panic/hang; Ok(graph) that violates mirror/symmetry, lists a non-member, or contains a node or edge the document does not declare (independent strict parse); Ok although a listed edge names an undeclared key.",
+            "Trusted: the independent strict parse of the mutated document into plain tuples. Documents that cannot be read as (nodes, edges) at all are only checked for no-panic and well-formedness of an Ok result.",
+            "DESIGN.md §4 C13"),
 }
 
 NOT_APPLICABLE = {
